@@ -44,6 +44,10 @@ type Keyper struct {
 	sim    *Sim
 }
 
+// LastSetExcludes is the index of a keyper that is left out of the last keyper set NewSimSets
+// announces (-1: every set has all keypers); the left-out keyper still knows the set.
+var LastSetExcludes = -1
+
 // RedialKeyper is the index of the keyper NewSim creates with Redial set (-1: none). Cases run one
 // at a time per worker process.
 var RedialKeyper = -1
@@ -89,7 +93,16 @@ func NewSimSets(ctx context.Context, seed uint64, n, t int, phaseLen int64, hone
 		}
 		// the keyper sets as the chain observer would have synced them from the main chain
 		for cfgIdx := int64(0); cfgIdx <= int64(sets); cfgIdx++ {
-			if err := obskeyper.New(node.Pool).InsertKeyperSet(ctx, obskeyper.InsertKeyperSetParams{KeyperConfigIndex: cfgIdx, ActivationBlockNumber: cfgIdx * 50, Keypers: shdb.EncodeAddresses(addrs), Threshold: int32(t)}); err != nil {
+			setAddrs := addrs
+			if cfgIdx == int64(sets) && sets >= 2 && LastSetExcludes >= 0 {
+				setAddrs = nil
+				for j, a := range addrs {
+					if j != LastSetExcludes {
+						setAddrs = append(setAddrs, a)
+					}
+				}
+			}
+			if err := obskeyper.New(node.Pool).InsertKeyperSet(ctx, obskeyper.InsertKeyperSetParams{KeyperConfigIndex: cfgIdx, ActivationBlockNumber: cfgIdx * 50, Keypers: shdb.EncodeAddresses(setAddrs), Threshold: int32(t)}); err != nil {
 				return nil, err
 			}
 		}
